@@ -37,13 +37,10 @@ def kinds(ans):
 
 
 KNOWN_CLASSES = [
+    # (F9a, F9b, F9c, F9d are repaired: those inputs are compared like any other)
     # (finding id, predicate on the source text): syntactic classes of inputs on which the two lexers are known
     # to diverge (known-findings.json); such inputs are still compared alpha-vs-reference, and each class is
     # probed with its specific input on every run.
-    ("F9a", re.compile(r"'[^'\n]*\\u")),                  # \u escape inside a char literal
-    ("F9b", re.compile(r"\\u\{[0-9a-fA-F]{7,}")),          # \u{...} with 7 or more hex digits
-    ("F9c", re.compile(r"0b(_*[01]){129,}")),                # binary literal with more than 128 digits
-    ("F9d", re.compile(r"[\"'][^\n]*\\(\r?\n|$)")),        # backslash at end of line inside a literal
     ("F9e", re.compile(r"[^\x00-\x7f]")),                   # non-ASCII (byte vs char offsets; one E110 per byte)
     ("F9f", re.compile(r"\r(?!\n)")),                       # lone carriage return
     ("F9g", re.compile(r"[\"'][^\n]*\r\n")),                # CRLF at the end of a line that contains a quote
